@@ -24,13 +24,13 @@ INFO = {
                   'fe.submit.Defer.__call__/Process.step_0..3/failure', 'fe.api.cmd_reset', 'pl.farm.dispatch (archive branch)/something_to_do/notify_all/clear'],
     'bounds': {'quick': 'histories of <=4 events from boot and <=4 from running (17 event kinds incl. both submit endpoints, asynchronous compliance verification, independent work flags), then drain; directed 5-event families around the asynchronous API submission and new data', 'thorough': '<=5 events from running and from boot; directed families with 4 free events'},
     'assumptions': [
-        'deferToThread/time.sleep/reactor.callLater are fakes: a background job runs to completion atomically when scheduled; a poller whose loop condition still holds stays pending',
+        'deferToThread/time.sleep/reactor.callLater are fakes: a background job runs to completion atomically when scheduled; a poller runs in a thread of its own that starts at once, is parked inside its sleep() while its loop condition holds and is resumed by the schedule (strict hand-off, never concurrent), so what it keeps in locals survives; leaving the loop and running the continuation stay one atomic step',
         'I/O of the state bodies (scan, db open/close/archive, version tables, schedule.build, git, mail, sockets, svg) is stubbed; their control flow is real',
         'triggers are fired only through their real call sites (boot, dispatch tick, submit process, reset command, continuations) plus the FOREIGN event that tries every trigger the documented machine forbids in the current state',
         'tools.submit.automatic answers at once (time spent in gitting is one reactor turn)',
         'the data base reports the end of an archive through its callback as a background step of its own (as the PostgreSQL back end does when pg_dump ends); completing it right after the archive thread gives the shelve behaviour',
     ],
-    'outside': ['real OS threads inside one background job', 'what a poller keeps in locals across iterations of its sleep loop (a poller is re-evaluated from its first line at every completion attempt)', '_navel_gaze calling a trigger off the reactor thread', 'longer histories'],
+    'outside': ['real OS threads inside one background job', '_navel_gaze calling a trigger off the reactor thread', 'longer histories'],
 }
 
 
